@@ -26,6 +26,7 @@ def set_len(ex, s, n):
     if not hasattr(ex, "len_vars"):
         ex.len_vars = {}
     ex.len_vars[s.get_id()] = n
+    ex.__dict__.setdefault("_keep_alive", []).append(s)   # ids key the table: the term must stay alive
 
 
 # ---------------------------------------------------------------- keys and points
